@@ -61,6 +61,56 @@ CHECKS["C09"] = dict(
          "(executed concretely per configuration), n beyond the listed sizes.",
     technique="SSA symbolic execution + SMT (z3 QF_BV/UF), group domain with formal doubling levels, protocol obligations on channel events")
 
+CHECKS["C18"] = dict(
+    category="proof",
+    text="ipa/barycentric.go executed from SSA with field elements as rational functions of the inputs: DivideOnDomain(k, f) for a fully "
+         "symbolic polynomial f and every k checked (quick: 10 indices incl. 0,127,128,200,255; thorough: all 256) against "
+         "q_i (i-k) = f_i - f_k and the independent degree<255 Lagrange interpolation for q_k; ComputeBarycentricCoefficients for symbolic z "
+         "against prod(z-j)/(A'(i)(z-i)) for all 256 i (rational-function identity decided by degree-bound+1 ground SMT instances); all "
+         "1022 table entries of NewPrecomputedWeights modulo r (closed computation through the encoder).",
+    design_ref="DESIGN.md section 3.4, 5 / C18",
+    note="Trusted: encoder, z3, field-operation summaries (C15), identities over Q[x] transfer to F_r with the recorded non-zero denominators. "
+         "Outside: the barycentric formula theorem itself; z inside the domain.",
+    technique="SSA symbolic execution into rational-function terms + SMT (z3 LRA; ground instances for high-degree identities)")
+CHECKS["C17"] = dict(
+    category="proof",
+    text="fp/sqrt.go from SSA: invSqrtEqDyadic for ALL 2^32 exponents of the 2-Sylow subgroup (discrete-log domain: fails iff exponent odd, "
+         "otherwise 2w+e=0 mod 2^32, every LUT access on an element of order dividing 2^8, every table index in range); the addition chain "
+         "exponents (Q-1)/2, Q, (Q+1)/2; SqrtPrecomp glue (nil iff non-residue, root^2 = x, argument untouched, 0 -> 0); GetPointFromX/"
+         "computeY: right-hand side (a x^2-1)/(d x^2-1), nil iff no root, returned y is the requested root, x untouched.",
+    design_ref="DESIGN.md section 3.4 (domains E, P), 5 / C17",
+    note="Trusted: encoder, z3, block table and LUT by their definitions, x^Q in the 2^32 subgroup and order of g (number theory), sign "
+         "predicate axiom lexl(-y) = not lexl(y).",
+    technique="SSA symbolic execution in a discrete-log value domain + SMT (z3 QF_BV)")
+CHECKS["C04"] = dict(
+    category="proof",
+    text="ipa.computeBVector (with fr.Cmp, ToBigIntRegular, big.Int) executed from SSA for every field element: the barycentric routine is "
+         "used exactly when the regular value is > 255, otherwise the result is the unit vector at that index (all 256 positions), no panic.",
+    design_ref="DESIGN.md section 5 / C04 (O1)",
+    note="Trusted: encoder, z3, MONT/UNMONT bijection (C15), math/big stub; barycentric coefficients are C18. Outside (not decidable by a "
+         "solver): rejection of every wrong result (cryptographic soundness); the 8-round folding completeness (O3/O4 not built).",
+    technique="SSA symbolic execution + SMT (z3 LIA/UF)")
+CHECKS["C14"] = dict(
+    category="proof",
+    text="common/transcript.go executed from SSA against the specification (running byte string, SHA-256 as an uninterpreted function of the "
+         "hashed bytes, little-endian reduction, restart with label+challenge): every challenge of every operation sequence of length <= 3 "
+         "(thorough 4) plus seeded longer sequences (incl. > 1024 pending bytes, empty and 1100-byte messages) equals the specification's; "
+         "caller label/message buffers (with spare capacity) unchanged.",
+    design_ref="DESIGN.md section 5 / C14",
+    note="Trusted: encoder, z3, hash.Hash/bytes.Buffer stubs, encodings of scalars/points by contract (C16, C07). Outside: SHA-256 itself; "
+         "sequences longer than those listed.",
+    technique="SSA symbolic execution with uninterpreted hash + SMT equality of hashed byte strings")
+CHECKS["C10"] = dict(
+    category="proof",
+    text="MultiProof.Read/Write, IPAProof.Read/Write, common.ReadPoint/ReadScalar and io.ReadAtLeast executed from SSA over a symbolic byte "
+         "string of each length in {0,1,31,32,33,543..545,575..578,608,640} (thorough 0..640) and a chunking reader model (k bytes per Read, "
+         "optional data+EOF): Read succeeds iff exact length, all points valid, scalar canonical; Write(Read(b)) = b; Read(Write(p)) = p; a "
+         "writer failing at any of the 18 calls makes Write fail; no panic.",
+    design_ref="DESIGN.md section 5 / C10",
+    note="Trusted: encoder, z3, point decoder as uninterpreted validity predicate with Bytes(decode(b)) = b (C06/C07), canonical scalar decoder "
+         "by its C16 contract, binary.Write stub. Outside: readers returning (0,nil); unlisted chunk sizes.",
+    technique="SSA symbolic execution + SMT (z3 QF_BV/UF) with I/O environment stubs")
+
 NOT_YET = {}
 
 ALL = ["C%02d" % i for i in range(1, 21)]
